@@ -1002,7 +1002,9 @@ impl C10 {
                 let err = inc_snap.node_by_output(p).and_then(|n| n.error.clone()).unwrap_or_default();
                 let src = inc_snap.node_by_output(p).map(|n| n.source.clone()).unwrap_or_default();
                 let own_deps: &[&str] = if role == "entry" { &model::DEPS } else { &[model::UTIL, model::LEAF] };
-                let dep_was_in_trouble = dep_trouble.iter().any(|d| d != &src && own_deps.contains(&d.as_str()));
+                // ... and that very file was repaired later (the trigger of the listed finding); an error that went away
+                // because another module stopped requiring the file is not excused
+                let dep_was_in_trouble = dep_trouble.iter().any(|d| d != &src && own_deps.contains(&d.as_str()) && final_model.repaired_directly.contains(d));
                 if err.contains("(bundler)") && dep_was_in_trouble {
                     excused.push(format!("{} (recorded error: {})", p, short(&err)));
                     continue;
@@ -1215,7 +1217,7 @@ impl Monitor for C10 {
                     let dep = if model::DEPS.iter().any(|d| target.contains(d)) { "-dep" } else { "" };
                     let class = match k {
                         "process" => continue,
-                        "edit" | "break" => format!("write{}", dep),
+                        "edit" | "break" | "cut" => format!("write{}", dep),
                         "save" => "rename-over".to_string(),
                         "mvin" => "move-in".to_string(),
                         "rm" | "rmdir" | "mv" | "mvout" => format!("remove{}", dep),
